@@ -281,19 +281,23 @@ def gen_leaf(rng, big=False, bad=False):
     return ["t", gen_text(rng, big, bad and rng.random() < 0.5)]
 
 
-def gen_val(rng, d, big=False, bad=False):
-    if d <= 0 or rng.random() < 0.35:
+def gen_val(rng, d, big=False, bad=False, budget=None):
+    """a random value of nesting depth <= d; `budget` caps the number of nodes (wide AND deep explodes)"""
+    if budget is None:
+        budget = [rng.choice([40, 120, 400]) if not big else 1500]
+    budget[0] -= 1
+    if d <= 0 or budget[0] <= 0 or rng.random() < 0.35:
         return gen_leaf(rng, big and rng.random() < 0.3, bad)
     width = rng.choice([0, 1, 1, 2, 2, 3, 4, 9, 10, 11]) if not big else rng.choice([0, 30, 100, 334])
     if rng.random() < 0.5:
-        return ["L", [gen_val(rng, d - 1, False, bad) for _ in range(width)]]
+        return ["L", [gen_val(rng, d - 1, False, bad, budget) for _ in range(width)]]
     items, seen = [], set()
     for _ in range(width):
         key = gen_key(rng, bad and rng.random() < 0.3)
         while tuple(key) in seen:
             key = key + [rng.choice(KEY_ALPHA)]
         seen.add(tuple(key))
-        items.append([key, gen_val(rng, d - 1, False, bad)])
+        items.append([key, gen_val(rng, d - 1, False, bad, budget)])
     return ["D", items]
 
 
@@ -353,11 +357,11 @@ def chunkings(rng, data, tier, every=True):
     yield "whole", [data] if data else []
     if n >= 2:
         cuts = range(1, n)
-        if not every or n > (40 if tier == "quick" else 120):
+        if not every or n > (40 if tier == "quick" else 80):
             cuts = sorted(set(rng.randrange(1, n) for _ in range(6 if tier == "quick" else 24)))
         for c in cuts:
             yield "2way", [data[:c], data[c:]]
-        if n <= (200 if tier == "quick" else 1500):
+        if n <= (200 if tier == "quick" else 1200):
             yield "bytewise", [data[i:i + 1] for i in range(n)]
         for _ in range(2):
             k = rng.randint(2, min(8, n - 1)) if n > 2 else 1
@@ -398,7 +402,7 @@ class C20(Suite):
             for t in dict.fromkeys(tails):
                 yield {"op": "rt", "v": v, "tail": hx(t)}
         # --- rt: random
-        for i in range(2500 if quick else 40000):
+        for i in range(6000 if quick else 80000):
             d = rng.choice([0, 1, 1, 2, 2, 3, 4, 6 if quick else 8])
             v = gen_val(rng, d, big=rng.random() < 0.04, bad=rng.random() < 0.05)
             tail = rng.choice(TAILS) if rng.random() < 0.7 else mutate(rng, tnetstrings.dump(to_py(gen_leaf(rng))))
@@ -410,7 +414,7 @@ class C20(Suite):
                 v = ["L", [v]] if j % 2 else ["D", [[[0x6B], v]]]
             yield {"op": "rt", "v": v, "tail": "-"}
         # --- stream: structured messages
-        nstream = 140 if quick else 1500
+        nstream = 400 if quick else 2500
         for i in range(nstream):
             vals = []
             for _ in range(rng.choice([1, 1, 2, 2, 3])):
@@ -437,7 +441,7 @@ class C20(Suite):
                 b = bytes(tup)
                 yield {"op": "stream", "chunks": [b.hex()] if b else [], "vals": None, "tail": "-"}
         # --- malformed: mutated dumps, raw parse and raw stream
-        for i in range(4000 if quick else 60000):
+        for i in range(10000 if quick else 100000):
             v = gen_val(rng, rng.choice([0, 0, 1, 2, 3]))
             if not in_scope(v):
                 continue
@@ -445,12 +449,14 @@ class C20(Suite):
             if b"^" in data and noncanonical_float(data):
                 continue
             yield {"op": "parse", "data": hx(data)}
-        for i in range(500 if quick else 8000):
+        for i in range(1200 if quick else 8000):
             vals = [gen_leaf(rng) for _ in range(rng.choice([1, 2, 3]))]
             vals = [ptrunc(v, rng.choice([0, 2, 10, 30])) if v[0] in ("y", "t") else v for v in vals]
             data = b"".join(tnetstrings.dump(to_py(v)) for v in vals)
             data = mutate(rng, data) if rng.random() < 0.85 else data
-            for label, chunks in itertools.islice(chunkings(rng, data, "quick", every=False), 0, 5 if quick else 9):
+            allc = list(chunkings(rng, data, "quick", every=False))
+            two = [x for x in allc if x[0] == "2way"]
+            for label, chunks in [x for x in allc if x[0] != "2way"] + two[:2 if quick else 4]:
                 yield {"op": "stream", "chunks": [c.hex() for c in chunks], "vals": None, "tail": "-"}
 
     # ------------------------------------------------------------------------------------- protocol
